@@ -9,6 +9,7 @@ import time
 
 import kani_run
 import prop_parser
+import side_unit
 import witness
 from common import seed
 from common import VERIF, REPO, scratch, Undecided, write_evidence, write_replay, finish
@@ -57,10 +58,14 @@ def main(prop, tier):
             fded = pool.submit(prop_parser.c20_part, os.path.join(scratch(), 'unit_c20'))
             # bounded native stand-in on the real crate: every syntax error of every enumerated input points at a whole token or
             # is empty at the end of the text (catches what neither the Verus unit nor the contract harness can ingest)
+            # deductive side unit: the conversion of a syntax error into a diagnostic keeps exactly the parser's range
+            fdiag = pool.submit(side_unit.run, 'diag')
+            fdiagc = pool.submit(side_unit.canary, 'diag', side_unit.UNITS['diag']['canaries'][0], 0)
             fnat = pool.submit(witness.enumerate_inputs, 2 if tier == 'quick' else 3, 45 if tier == 'quick' else 400, seed(), REPO, ['error-range'])
             results = kani_run.run_many(d, HARNESSES, (), 900, jobs=2)
             can = [f.result() for f in fc]
             ded = fded.result()
+            diag, diagc = fdiag.result(), fdiagc.result()
             try:
                 nat_w, nat_n = fnat.result()
             except Undecided:
@@ -96,6 +101,20 @@ def main(prop, tier):
             path = write_replay(prop, f['id'], f['where'], 'verus 0.2026.09.13', '\n'.join(x['rendered'] for x in ded['failures'] if x['fn'] == f['fn']), None,
                                 './check C20 --replay <this file>')
             violations.append((path, False))
+    if diag['status'] == 'failed':
+        seen = set()
+        for f in diag['failures']:
+            if f['fn'] in seen:
+                continue
+            seen.add(f['fn'])
+            path = write_replay(prop, f['id'], f['where'], 'verus 0.2026.09.13', '\n'.join(x['rendered'] for x in diag['failures'] if x['fn'] == f['fn']), None,
+                                './check C20 --replay <this file>')
+            violations.append((path, False))
+    elif diag['status'] == 'verified':
+        if diag.get('reachability_guard') != 'rejected-as-required':
+            guard.append('diag unit: precondition reachability guard: %s' % diag.get('reachability_guard'))
+        if diagc['status'] == 'NOT-TRIPPED':
+            guard.append('diag unit: canary not detected')
     if all(r['status'] == 'SUCCESSFUL' for r in results):
         if any(c['status'] == 'NOT-TRIPPED' for c in can):
             guard.append('canary not detected: %s' % [c['name'] for c in can if c['status'] == 'NOT-TRIPPED'])
@@ -110,15 +129,20 @@ def main(prop, tier):
            'bound': 'token-vector length <= 3 (the two methods index a single position; everything else is symbolic over its full domain), unwind 5 with unwinding assertions',
            'decided_clause': 'every syntax error is located at the current token (its whole range) or is empty at the end of the text; nothing else of C20 is decided',
            'functions_under_contract': ['Parser::error', 'Parser::nth'],
-           'canaries': can,
+           'canaries': can + [diagc],
+           'deductive_part_diagnostic_conversion': {k: v for k, v in diag.items() if k != 'per_function_ms'},
            'checker_cmd': results[0]['cmd'],
            'deductive_part': {k: v for k, v in ded.items() if k != 'failures'},
            'native_enumeration': {'what': 'every syntax error of parse_module(input) has the whole range of a token of the tree or is empty at the end of the text', 'inputs_run': nat_n,
                                   'bound': 'all sequences of <= %d tokens over a 52-token alphabet in 11 contexts (time budget)' % (2 if tier == 'quick' else 3), 'failed': bool(nat_w)}}
     if ded['status'].startswith('verified'):
         cov['obligations'], cov['discharged'] = ded['verified'] + ded['errors'], ded['verified']
+        if diag['status'] == 'verified':
+            cov['obligations'] += diag['verified'] + diag['errors']
+            cov['discharged'] += diag['verified']
     write_evidence(prop, tier, 'model_checking', cov,
                    ['deductive part (Verus, the parser unit of C01/C02): the frame of every grammar function and of the tree builder carries `old.errs_ok() ==> new.errs_ok()`, and the end-to-end lemma verif_parse concludes that EVERY error of the returned Parse points at the whole range of one of the parser\'s tokens or is the empty range at the end of the text - for all inputs - given the contract of Parser::error, which is what the Kani harness error_contract checks on the real text; a grammar function that pushed to `errors` itself, or an error recorded with any other range, fails a named obligation (attributed to C20 by re-verifying with the invariant switched off)',
+                    'deductive side unit diag (Verus): Diagnostic::new and impl From<syntax::Error> for Diagnostic (crates/ide/src/diagnostic.rs, verbatim) - a syntax error becomes a diagnostic with exactly the parser\'s range and no notes; the step in between, ide::diagnostics (salsa query, iterator adapters), and glas::convert::to_diagnostics (lsp_types) are not verified; to_range is verified in the C19 unit. If the unit cannot be extracted it is reported undecided here and nothing is claimed from it',
                     'logos token spans tile 0..len on char boundaries (assumption i of DESIGN.md 3.1): with it, the proved error ranges are in bounds and on boundaries',
                     'all other answer kinds of C20 (hover, definitions, references, highlights, rename edits, completions, semantic highlights) take their ranges from rowan cursors inside crate ide, which neither verifier ingests: NOT decided',
                     'Kani 0.68 / CBMC 6.11'], time.time() - t0, len(violations))
